@@ -142,7 +142,7 @@ def main():
                    baseline_off_cmd="cd /repo && cargo nextest run --workspace --no-fail-fast --offline || cargo test --workspace --no-fail-fast --offline",
                    source_commits=["fbb9d73"], add_only=True),
         engines=[dict(name="rocq-model", path="coq/", serves_properties=sorted(CHECKS),
-                      kind_free_text="machine-checked proof in Rocq/Coq 8.16.1 of model = specification; the 27 integer kernels of fpdec-core and 39 Decimal-level functions of src/ are translated from the Rust source on every run (tools/rs2v.py) and proved equal to the model; extracted model and specification (OCaml) run against the Rust harness")],
+                      kind_free_text="machine-checked proof in Rocq/Coq 8.16.1 of model = specification; the 27 integer kernels of fpdec-core 39 Decimal-level functions of src/ and the 226 integer-operand forms are translated from the Rust source on every run (tools/rs2v.py) and proved equal to the model; extracted model and specification (OCaml) run against the Rust harness")],
         checks=checks,
         not_applicable=na,
         notes="See DESIGN.md. fix: commits in /repo and known findings are listed in known_findings.json.",
